@@ -418,6 +418,22 @@ package protocol
 //@   ensures C14.request.own-args: implies(result0 != nil, len(result0.Args) == len(self.args) && forall(k, 0, len(self.args), result0.Args[k] == self.args[k]) && (len(self.args) == 0 || arr(result0.Args) != arr(self.args)))
 //@   modifies E_string
 
+// C06/C05: the expiry (EX seconds, PX milliseconds) and the wait time-out (TX, PTX) a text command asks for reach the
+// lock engine as value x unit with value x unit >= the requested time and less than one unit above it, whatever unit
+// the converter picks (milliseconds up to 3 s, seconds, minutes beyond 65535 s). The option word and its number are
+// values of the pure externals strings.ToUpper / strconv.ParseInt (externals.vc); the premise leaves out a command
+// whose unit bits were already set by an earlier option of the same line
+//@ spec func expUnit(c) = ite(c.ExpriedFlag&0x0400 != 0, 1, ite(c.ExpriedFlag&0x0040 != 0, 60000, 1000))
+//@ spec func toUnit(c) = ite(c.TimeoutFlag&0x0400 != 0, 1, ite(c.TimeoutFlag&0x0040 != 0, 60000, 1000))
+//@ func (*TextCommandConverter).ConvertArgs2Flag
+//@   requires lockCommand != nil
+//@   loop#1 invariant 0 <= i && i <= len(args)
+//@   loop#1 backedge C06.text.px-unit: implies(strings.ToUpper(athead(args[i])) == "PX" && athead(i) + 1 < len(args) && athead(lockCommand.ExpriedFlag)&0x0440 == 0 && strconv.ParseInt(athead(args[i+1]), 10, 64) >= 0 && strconv.ParseInt(athead(args[i+1]), 10, 64) <= 3932100000, lockCommand.Expried * expUnit(lockCommand) >= strconv.ParseInt(athead(args[i+1]), 10, 64) && lockCommand.Expried * expUnit(lockCommand) < strconv.ParseInt(athead(args[i+1]), 10, 64) + expUnit(lockCommand))
+//@   loop#1 backedge C05.text.ptx-unit: implies(strings.ToUpper(athead(args[i])) == "PTX" && athead(i) + 1 < len(args) && athead(lockCommand.TimeoutFlag)&0x0440 == 0 && strconv.ParseInt(athead(args[i+1]), 10, 64) >= 0 && strconv.ParseInt(athead(args[i+1]), 10, 64) <= 3932100000, lockCommand.Timeout * toUnit(lockCommand) >= strconv.ParseInt(athead(args[i+1]), 10, 64) && lockCommand.Timeout * toUnit(lockCommand) < strconv.ParseInt(athead(args[i+1]), 10, 64) + toUnit(lockCommand))
+//@   loop#1 backedge C06.text.ex-unit: implies(strings.ToUpper(athead(args[i])) == "EX" && athead(i) + 1 < len(args) && athead(lockCommand.ExpriedFlag)&0x0440 == 0 && strconv.ParseInt(athead(args[i+1]), 10, 64) >= 0 && strconv.ParseInt(athead(args[i+1]), 10, 64) <= 3932100, lockCommand.Expried * expUnit(lockCommand) >= 1000 * strconv.ParseInt(athead(args[i+1]), 10, 64) && lockCommand.Expried * expUnit(lockCommand) < 1000 * strconv.ParseInt(athead(args[i+1]), 10, 64) + expUnit(lockCommand))
+//@   loop#1 backedge C05.text.tx-unit: implies(strings.ToUpper(athead(args[i])) == "TX" && athead(i) + 1 < len(args) && athead(lockCommand.TimeoutFlag)&0x0440 == 0 && strconv.ParseInt(athead(args[i+1]), 10, 64) >= 0 && strconv.ParseInt(athead(args[i+1]), 10, 64) <= 3932100, lockCommand.Timeout * toUnit(lockCommand) >= 1000 * strconv.ParseInt(athead(args[i+1]), 10, 64) && lockCommand.Timeout * toUnit(lockCommand) < 1000 * strconv.ParseInt(athead(args[i+1]), 10, 64) + toUnit(lockCommand))
+//@   modifies all
+
 // C13: the readers of a stored value's inner structure (array elements, key/value pairs, property entries) never index
 // past the value, whatever lengths its bytes announce (the value is the bytes a client sent, kept as they came)
 //@ func (*LockResultCommandData).GetArrayValue
